@@ -231,9 +231,15 @@ class World(EventDispatcher):
         (TODO) returns cached results from this method.
         """
         fringe = [component_type]
+        visited = set()
 
         while fringe:
             subtype = fringe.pop()
+            # With multiple inheritance a subtype is reachable through
+            # more than one base, report its components once
+            if subtype in visited:
+                continue
+            visited.add(subtype)
             fringe += subtype.__subclasses__()
 
             for entity in self._components.get(subtype, []):
